@@ -157,6 +157,7 @@ class PCA(Transformer):
             Tinv = self.V.conj().T
             Tinv = Tinv.rename({"mode": dummy_dim})
             transformed = xr.dot(Tinv, X, dims=self.feature_name)
+            transformed.name = X.name
             return transformed.rename({dummy_dim: self.feature_name})
         else:
             return X
@@ -169,7 +170,9 @@ class PCA(Transformer):
             comps_pc_space = X.rename({self.feature_name: dummy_dim})
             V = self.V
             V = V.rename({"mode": dummy_dim})
-            return xr.dot(V, comps_pc_space, dims=dummy_dim)
+            transformed = xr.dot(V, comps_pc_space, dims=dummy_dim)
+            transformed.name = X.name
+            return transformed
         else:
             return X
 
